@@ -80,4 +80,58 @@ theorem mem_altOf (l : List α) (x : α) (h : x ∈ l) : [x] ∈ (altOf l).match
 theorem rmatch_of_mem {P : RegularExpression α} {x : List α} (h : x ∈ P.matches') : P.rmatch x = true :=
   (rmatch_iff_matches' P x).mpr h
 
+/-! ### list lemmas for `saveTechnique` -/
+
+theorem foldl_erase_absent (l : List String) (ts : List String) (h : ∀ t ∈ ts, t ∉ l) :
+    ts.foldl (fun acc t => acc.erase t) l = l := by
+  induction ts with
+  | nil => rfl
+  | cons t ts ih =>
+    simp only [List.foldl_cons]
+    rw [List.erase_of_not_mem (h t (by simp))]
+    exact ih (fun t' ht' => h t' (by simp [ht']))
+
+theorem foldl_erase_one (P E : List String) (old : String) (ts : List String)
+    (hP : ∀ t ∈ ts, t ∉ P) (hE : ∀ t ∈ ts, t ∉ E) :
+    ts.foldl (fun acc t => acc.erase t) (P ++ old :: E) = if old ∈ ts then P ++ E else P ++ old :: E := by
+  induction ts with
+  | nil => simp
+  | cons t ts ih =>
+    simp only [List.foldl_cons]
+    have hPt : t ∉ P := hP t (by simp)
+    have hEt : t ∉ E := hE t (by simp)
+    by_cases hto : t = old
+    · subst hto
+      rw [List.erase_append_right _ hPt, List.erase_cons_head]
+      rw [foldl_erase_absent]
+      · simp
+      · intro t' ht'
+        simp only [List.mem_append, not_or]
+        exact ⟨hP t' (by simp [ht']), hE t' (by simp [ht'])⟩
+    · have : (P ++ old :: E).erase t = P ++ old :: E := by
+        apply List.erase_of_not_mem
+        simp only [List.mem_append, List.mem_cons, not_or]
+        exact ⟨hPt, hto, hEt⟩
+      rw [this, ih (fun t' ht' => hP t' (by simp [ht'])) (fun t' ht' => hE t' (by simp [ht']))]
+      have : (old ∈ t :: ts) ↔ old ∈ ts := by
+        simp only [List.mem_cons]
+        constructor
+        · rintro (h | h)
+          · exact absurd h.symm hto
+          · exact h
+        · exact Or.inr
+      simp only [this]
+
+theorem findIdx_after_prefix (p : String → Bool) (P E : List String) (hP : ∀ x ∈ P, p x = false)
+    (hE : ∀ x ∈ E, p x = true) : (P ++ E).findIdx p = P.length := by
+  induction P with
+  | nil =>
+    cases E with
+    | nil => rfl
+    | cons e E => simp [List.findIdx_cons, hE e (by simp)]
+  | cons x P ih =>
+    simp only [List.cons_append, List.findIdx_cons, hP x (by simp), List.length_cons]
+    simp [ih (fun y hy => hP y (by simp [hy]))]
+
+
 end Pyc.Schema
